@@ -13,6 +13,7 @@
 //	brg   Bridge.Close, cleanup report racing the periodic goroutine's final report
 //	sp    StreamProcessor.Close against an in-flight ReadPacket/WritePacket (gated transport)
 //	api   every plain-argument exported method of a component on a fresh instance: open vs closed / closing — no new panic
+//	rmt   ResourceManager.DisposeWithTimeout with a resource whose Dispose outlasts the deadline
 //	rm    dispose.ResourceManager: Register / DisposeAll from many goroutines, then the last DisposeAll
 //	rep2  several bridges of one mapping reporting to the same record (known finding: overlapping reports lose a delta)
 //	cst   client mapping handler: reportStats ticks / calls / failing calls racing the final report on Close (TrackTraffic gated)
@@ -75,6 +76,8 @@ func exec(caseStr string) (obs string) {
 			return runRep2(t)
 		case "rm":
 			return runRm(t)
+		case "rmt":
+			return runRmt(t)
 		}
 		return "bad case"
 	})
@@ -325,6 +328,9 @@ func gen(out *vc.Out, r *vc.Rand, thorough bool) {
 			}
 		}
 	}
+	// rmt: DisposeWithTimeout, the deadline or the disposal winning
+	emit(out, "", "rmt slow 1 rep 2 "+ms())
+	emit(out, "", fmt.Sprintf("rmt slow 0 rep %d %s", 3*mul, ms()))
 	// rep2: several bridges of one mapping, sequential reports (the overlapping ones are the known finding, in the corpus)
 	emit(out, "", "rep2 b 2 100 7 s 4 0 0 1 1 rep 1 "+ms())
 	emit(out, "", "rep2 b 3 5 6 7 s 6 2 2 0 0 1 1 rep 1 "+ms())
